@@ -220,7 +220,7 @@ func c13Body(c *ev.Ctx) {
 		}
 		var mu sync.Mutex
 		nfail := 0
-		e := &vsched.Explorer{Bound: jb.bound, Fine: true, UseKeys: false, MaxSteps: 2000000, Workers: 1 /* one execution at a time: the code under test may (wrongly) hold package-level state, which parallel executions in one process would share */, Deadline: c.Deadline, NewRun: c13Run(c, &sc), AfterRun: vhttp.Uninstall,
+		e := &vsched.Explorer{Bound: jb.bound, Fine: true, UseKeys: false, CountOnly: true, MaxSteps: 2000000, Workers: 1 /* one execution at a time: the code under test may (wrongly) hold package-level state, which parallel executions in one process would share */, Deadline: c.Deadline, NewRun: c13Run(c, &sc), AfterRun: vhttp.Uninstall,
 			// alternatives only between connection (handler) threads: the interleavings of
 			// connection set-up, clients and server start-up/shut-down belong to C14
 			Filter: func(p *vsched.Point, alt int) bool {
